@@ -1,20 +1,95 @@
 (* C06 — Registry integrity: unique identities, complete release on termination.
    Property theorems only; proofs live in Ids/ and Rel/. *)
-From Ergo Require Import Common.Base Ids.Model Ids.Proofs Ids.Cases Rel.Amap Rel.Model Rel.Cases.
+From Ergo Require Import Common.Base Ids.Model Ids.Proofs Ids.Cases Rel.Amap Rel.Model Rel.TMProofs Rel.RegProofs Rel.Cases.
 Local Open Scope N_scope.
 
 (* MakeRef (after the fix) is injective on the 64-bit counter: no two calls of one node life give
    the same reference / alias *)
-Theorem C06_ref_injective : forall a b, a < two64 -> b < two64 -> a <> b -> makeref a <> makeref b.
+Theorem C06_ref_injective : forall a b, a < Ids.Model.two64 -> b < Ids.Model.two64 -> a <> b -> makeref a <> makeref b.
 Proof. exact makeref_injective. Qed.
 Print Assumptions C06_ref_injective.
 
-Theorem C06_refs_never_repeat : forall k c, c + N.of_nat k < two64 -> NoDup (make_refs k c).
+Theorem C06_refs_never_repeat : forall k c, c + N.of_nat k < Ids.Model.two64 -> NoDup (make_refs k c).
 Proof. exact refs_never_repeat. Qed.
 Print Assumptions C06_refs_never_repeat.
 
 (* process ids strictly increase (hence are fresh) while the 64-bit counter has not wrapped *)
-Theorem C06_pid_fresh : forall k c, c + N.of_nat k < two64 ->
+Theorem C06_pid_fresh : forall k c, c + N.of_nat k < Ids.Model.two64 ->
   increasing_from c (spawn_pids k c) /\ NoDup (spawn_pids k c).
 Proof. intros k c H. split; [exact (pids_increasing k c H) | exact (pids_never_repeat k c H)]. Qed.
 Print Assumptions C06_pid_fresh.
+
+(* the folded reference of important deliveries is injective inside a block of 2^18 counters only *)
+Theorem C06_important_ref_partial : forall a b, a < Ids.Model.two64 -> b < Ids.Model.two64 ->
+  a / 262144 = b / 262144 -> fold_ref (makeref a) = fold_ref (makeref b) -> a = b.
+Proof. exact fold_ref_window. Qed.
+Print Assumptions C06_important_ref_partial.
+Theorem C06_important_ref_refuted : exists a b, a <> b /\ fold_ref (makeref a) = fold_ref (makeref b).
+Proof. exists 1, 262144. destruct fold_ref_collides as [E NE]. split; [exact NE | exact E]. Qed.
+Print Assumptions C06_important_ref_refuted.
+
+(* names: RegisterName succeeds only on a free name and then the name resolves to the registrant;
+   on a taken name it fails and changes nothing *)
+Theorem C06_name_unique : forall p pr n s,
+  (forall s', register_name p pr n s = (s', ROk) ->
+     ahas N.eq_dec n (s_names s) = false /\ aget N.eq_dec n (s_names s') = Some p /\
+     (forall n', n' <> n -> aget N.eq_dec n' (s_names s') = aget N.eq_dec n' (s_names s))) /\
+  (forall q, aget N.eq_dec n (s_names s) = Some q -> register_name p pr n s = (s, RErr e_taken)).
+Proof. intros p pr n s. split; [intros s'; apply register_name_unique | intros q; apply register_name_taken]. Qed.
+Print Assumptions C06_name_unique.
+
+Theorem C06_alias_unique : forall p pr s s' a, create_alias p pr s = (s', RAlias a) ->
+  ahas N.eq_dec a (s_aliases s) = false /\ aget N.eq_dec a (s_aliases s') = Some p /\ a = s_uniq s + 1.
+Proof. exact create_alias_unique. Qed.
+Print Assumptions C06_alias_unique.
+
+Theorem C06_event_unique : forall p pr e s,
+  (forall s', register_event p pr e s = (s', ROk) ->
+     ahas N.eq_dec e (s_events s) = false /\ aget N.eq_dec e (s_events s') = Some p) /\
+  (forall q, aget N.eq_dec e (s_events s) = Some q -> register_event p pr e s = (s, RErr e_taken)).
+Proof. intros p pr e s. split; [intros s'; apply register_event_unique | intros q; apply register_event_taken]. Qed.
+Print Assumptions C06_event_unique.
+
+(* racing registrants of one free name, in whatever order their LoadOrStore takes effect:
+   exactly one succeeds (the first), all others get an error, the name resolves to the winner *)
+Theorem C06_register_race : forall n p tl names,
+  ahas N.eq_dec n names = false ->
+  aget N.eq_dec n (fst (race_register n (p :: tl) names)) = Some p /\
+  exists rest, snd (race_register n (p :: tl) names) = true :: rest /\
+               Forall (fun b => b = false) rest /\ length rest = length tl.
+Proof. exact race_register_one_wins. Qed.
+Print Assumptions C06_register_race.
+
+(* release: after unregisterProcess(p) has completed (in any reachable state): p is in no table, its
+   name / aliases / events are free again, and no relation mentions p as requester, nor p's pid,
+   name, aliases or events as target *)
+Theorem C06_release : forall ops nextpid uniq p pr r k,
+  let s := fst (run_ops ops (st0 nextpid uniq)) in
+  aget pid_dec p (s_procs s) = Some pr ->
+  let s' := terminate p r s in
+  (aget pid_dec p (s_procs s') = None /\
+   (forall n, pr_name pr = Some n -> aget N.eq_dec n (s_names s') = None) /\
+   (forall a, In a (pr_aliases pr) -> aget N.eq_dec a (s_aliases s') = None) /\
+   (forall e, In e (pr_events pr) -> aget N.eq_dec e (s_events s') = None)) /\
+  (In k (rels (s_tm s')) ->
+   In k (rels (s_tm s)) /\ kc k <> p /\ kt k <> TPid p /\
+   (forall n, pr_name pr = Some n -> kt k <> TName n me) /\
+   (forall a, In a (pr_aliases pr) -> kt k <> TAlias me a) /\
+   (forall e, In e (pr_events pr) -> kt k <> TEvent e me)).
+Proof.
+  intros ops nextpid uniq p pr r k s E s'. split.
+  - apply terminate_release_tables, E.
+  - apply terminate_release_relations; [apply run_ops_idx_ok, idx_ok_empty | exact E].
+Qed.
+Print Assumptions C06_release.
+
+(* non-vacuity: a process with a name, two aliases (one deleted), an event and relations in both
+   directions terminates: every table is empty afterwards and no relation is left *)
+Example C06_example :
+  let ops := [OSpawnNode (Some 5); OSpawnNode None; OCreateAlias (lpid 1001); OCreateAlias (lpid 1001);
+              ODeleteAlias (lpid 1001) 2; ORegisterEvent (lpid 1001) 7; OLink (lpid 1002) (TAlias me 1);
+              OMonitor (lpid 1001) (TPid (lpid 1002)); OTerminate (lpid 1001) 12] in
+  let s := fst (run_ops ops (st0 1000 0)) in
+  s_names s = [] /\ s_aliases s = [] /\ s_events s = [] /\ rels (s_tm s) = [] /\
+  map fst (s_procs s) = [lpid 1002] /\ inbox_of (lpid 1002) s = [mknote false (TAlias me 1) 12].
+Proof. vm_compute. repeat split; reflexivity. Qed.
